@@ -48,8 +48,10 @@ def _snippet(js, tree, what):
 
 def evaluate(chk, entries, opts, name):
   """observe -> TLC laws -> verdicts.  Returns (observations, failures)."""
-  obs = geno.observe_parallel('observe_c11', entries, chk.seed, opts, weight=_weight)
-  fails, results = geno.laws_parallel('GenoLaws', 'C11_laws.cfg', obs, opts['law_chunks'], name, weight=_oweight)
+  with geno.phase(chk, 'observe_real_code'):
+    obs = geno.observe_parallel('observe_c11', entries, chk.seed, opts, weight=_weight)
+  with geno.phase(chk, 'tlc_laws'):
+    fails, results = geno.laws_parallel('GenoLaws', 'C11_laws.cfg', obs, opts['law_chunks'], name, weight=_oweight)
   for r in results:
     chk.add_tlc(r, count_states=False)
   seen = {}
